@@ -16,6 +16,7 @@ import Driver.Life
 import Driver.Limits
 import Driver.FailProp
 import Driver.Cancel
+import Driver.Sasl
 
 structure DState where
   sess : Amqp.Session.St := Amqp.Session.init 0 0 0
@@ -76,6 +77,7 @@ def handle (st : DState) (line : String) : DState × String :=
   | "L" :: ws => (st, (Driver.Life.linkCall ws).getD "bad-op")
   | "P" :: ws => (st, (Driver.FailProp.step ws).getD "bad-op")
   | "Q" :: ws => (st, (Driver.Cancel.step ws).getD "bad-op")
+  | "X" :: ws => (st, (Driver.Sasl.step ws).getD "bad-op")
   | "N" :: ws =>
     match Driver.Limits.step st.limits ws with
     | some (s, out) => ({ st with limits := s }, out)
